@@ -286,14 +286,21 @@ def fam_sink(rng, n, prefix):
 # ---------- fragmented (C10/C11) ----------
 def frag_builder(rng, c, codec=None):
     codec = codec or rng.choice(VCODECS)
-    c.b("video", codec, "%x" % rng.choice([1920, 640, 65536, 0]), "%x" % rng.choice([1080, 480]))
+    omit = rng.below(12)          # 0..3: leave one required parameter out (new_with_fragment must return an error)
+    if omit != 0:
+        c.b("video", codec, "%x" % rng.choice([1920, 640, 65536, 0]), "%x" % rng.choice([1080, 480]))
     if codec in ("h264", "h265"):
-        c.b("sps", hx(rng.choice([bytes.fromhex("6742001eda02802d8b11"), rng.bytes(rng.range(0, 20))])))
-        c.b("pps", hx(rng.choice([bytes.fromhex("68ce3880"), rng.bytes(rng.range(0, 6))])))
-        if codec == "h265":
+        if omit != 1:
+            c.b("sps", hx(rng.choice([bytes.fromhex("6742001eda02802d8b11"), rng.bytes(rng.range(0, 20))])))
+        if omit != 2:
+            c.b("pps", hx(rng.choice([bytes.fromhex("68ce3880"), rng.bytes(rng.range(0, 6))])))
+        if codec == "h265" and omit != 3:
             c.b("vps", hx(rng.bytes(rng.range(0, 12))))
     elif codec == "av1":
-        c.b("av1seq", hx(obu(1, av1_seq_payload_simple(rng))))
+        if omit not in (1, 2):
+            c.b("av1seq", hx(obu(1, av1_seq_payload_simple(rng))))
+    elif omit in (1, 2):
+        pass
     else:
         c.b("vp9", *["%x" % x for x in [rng.below(4096), rng.below(4096), rng.below(4), rng.choice([8, 10, 12]),
                                          rng.below(8), rng.below(8), rng.below(2), 0, rng.below(2)]])
@@ -409,12 +416,21 @@ def fam_fn_codec(rng, n, prefix):
             out.append(fn_case("%s%d" % (prefix, i), "opus_frame_duration_from_toc", "%x" % rng.below(256)))
         elif k < 6:
             base = rng.choice([av1_key(rng), av1_delta(rng), obu(1, av1_seq_payload_simple(rng)), rng.bytes(rng.range(0, 12)),
-                               leb128(rng.below(2**40)) + rng.bytes(2)])
+                               leb128(rng.below(2**40)) + rng.bytes(2),
+                               b"", bytes([0x0E]), bytes([0x0C]), bytes([0x0A, 0x00]), bytes([0x0E, 0x00, 0x00]),
+                               bytes([0x0A, 0x01]) + rng.bytes(1),                       # sequence header with a 1-byte payload
+                               bytes([0x32, 0x01, 0x80 | rng.below(128)]) + av1_key(rng),  # show_existing_frame first
+                               bytes([0x1A, 0x01, 0x80]),                                # frame header OBU: show_existing_frame
+                               bytes([0x32, 0x00]) + av1_key(rng),                       # empty frame OBU first
+                               bytes([0x0A, 0x0B]) + bytes([0xFF] * 11)])
             d = mutate(rng, base) if rng.chance(1, 2) else base
             name = rng.choice(["read_leb128", "parse_obu_header", "obu_iter", "extract_av1_config", "is_av1_keyframe"])
             out.append(fn_case("%s%d" % (prefix, i), name, hx(d)))
         else:
-            base = rng.choice([vp9_key(rng), vp9_delta(rng), b"\x49\x83\x42" + rng.bytes(rng.range(0, 8)), rng.bytes(rng.range(0, 6))])
+            base = rng.choice([vp9_key(rng), vp9_delta(rng), b"\x49\x83\x42" + rng.bytes(rng.range(0, 8)), rng.bytes(rng.range(0, 6)),
+                               bytes([0xA0 | rng.below(16)]) + b"\x49\x83\x42" + rng.bytes(rng.range(0, 10)),   # profile 2/3 forms
+                               bytes([0xB0, 0x49, 0x83, 0x42]) + rng.bytes(rng.range(0, 3)),
+                               bytes([0x80 | rng.below(64)]) + rng.bytes(rng.range(0, 3))])
             d = mutate(rng, base) if rng.chance(1, 2) else base
             name = rng.choice(["extract_vp9_config", "is_vp9_keyframe", "is_valid_vp9_frame"])
             out.append(fn_case("%s%d" % (prefix, i), name, hx(d)))
@@ -451,6 +467,8 @@ def v_aframe(rng, codec):
         return b""
     if k == 1:
         return rng.bytes(rng.range(1, 10))
+    if codec == "opus" and k in (2, 3):
+        return rng.choice([bytes([0x03]), bytes([0x03, 0x00]), bytes([0x03, 0x40]), bytes([0xFB, 0x3F])])
     good = audio_frame(rng, codec if codec != "none" else "aac-lc")
     if k == 2:
         return good[:rng.range(1, 6)]
@@ -484,6 +502,34 @@ def fam_validation(rng, n, prefix):
                                o(hx(v_vframe(rng, vc))), rng.below(2),
                                o(ac), o("%x" % (48000 if good_dims else rng.choice(V_RATES))), o("%x" % (2 if good_dims else rng.choice(V_CH))),
                                o(hx(v_aframe(rng, ac)))))
+    return out
+
+
+# ---------- codec names (Display / FromStr; the CLI's option values) ----------
+NAME_POOL = ["h264", "H264", "h.264", "H.264", "avc", "AVC", "Avc", "h265", "H.265", "hevc", "HEVC", "av1", "AV1", "vp9", "VP9",
+             "aac", "AAC", "aac-lc", "AAC-LC", "aac-main", "AAC-Main", "aac-ssr", "aac-ltp", "aac-he", "AAC-HE", "aac-hev2",
+             "AAC-HEv2", "opus", "Opus", "OPUS", "none", "None", "", " ", "h264 ", " h264", "h 264", "h264\n", "h-264", "h266",
+             "vp8", "av01", "aac_lc", "aac-", "aac-he2", "mp3", "x", "hevc1", "none0",
+             "\u212a", "a\u212ac", "\u0130", "aac-ma\u0130n", "opu\u017f", "h\u00b2\u2076\u2074", "\u0397264", "\uff48264", "avc\u0301"]
+
+
+def fam_names(rng, n, prefix):
+    out = []
+    for i in range(n):
+        cid = "%s%d" % (prefix, i)
+        k = rng.below(8)
+        if k < 3:
+            t = rng.choice(NAME_POOL)
+            if rng.chance(1, 4):
+                t = "".join(ch.upper() if rng.chance(1, 2) else ch.lower() for ch in t)
+            out.append(fn_case(cid, rng.choice(["parse_video_codec", "parse_audio_codec"]), hx(t.encode("utf-8"))))
+        elif k < 5:
+            t = bytes(rng.choice(b"aAcChHeEvV12645.-lLtTpPsSrRmMiInNoOuU ") for _ in range(rng.range(0, 8)))
+            out.append(fn_case(cid, rng.choice(["parse_video_codec", "parse_audio_codec"]), hx(t)))
+        elif k < 6:
+            out.append(fn_case(cid, "video_codec_name", rng.choice(V_VCODECS)))
+        else:
+            out.append(fn_case(cid, "audio_codec_name", rng.choice(V_ACODECS)))
     return out
 
 
@@ -521,6 +567,10 @@ def reject_variants(rng, cfg, t_ok, last_v_t, last_a_t, small=False):
             g = bytearray(good); g[2] = (g[2] & 0xC3) | (13 << 2); bad_payloads.append(bytes(g))  # bad rate index
             bad_payloads.append(good[:-1])                     # truncated
             bad_payloads.append(good[:7])                      # header only
+            g = bytearray(good); g[1] |= 0x08; bad_payloads.append(bytes(g))                     # MPEG-2 version bit
+            g = bytearray(good); g[1] |= rng.choice([0x02, 0x04, 0x06]); bad_payloads.append(bytes(g))  # layer != 0
+            g = bytearray(good); g[2] &= 0xFE; g[3] &= 0x3F; bad_payloads.append(bytes(g))       # channel configuration 0
+            g = bytearray(good[:8]); g[1] &= 0xFE; bad_payloads.append(bytes(g))                 # CRC announced, bytes missing
         else:
             bad_payloads.append(bytes([0x03]))                 # code 3 without count byte
             bad_payloads.append(bytes([0x03, 0x00]))           # zero frames
